@@ -189,6 +189,7 @@ Definition helpers_of (names : list bytes) : list (key * value) :=
 
 Definition tn_T0 : bytes := [84;48].
 Definition tn_T1 : bytes := [84;49].
+Definition tn_Node : bytes := [78;111;100;101].
 
 (* signatures of the helper family (must match harness/family.go) *)
 Definition rec_sig (code : Z) : option gosig :=
